@@ -45,6 +45,7 @@ pub fn model_space(tier: Tier) -> Vec<Model> {
             v.extend(gen::m6(0));
             v.extend(gen::m7(0));
             v.extend(gen::m8(0));
+            v.extend(gen::m9(0));
         }
         Tier::Thorough => {
             v.extend(gen::m1(1));
@@ -55,6 +56,7 @@ pub fn model_space(tier: Tier) -> Vec<Model> {
             v.extend(gen::m6(1));
             v.extend(gen::m7(1));
             v.extend(gen::m8(1));
+            v.extend(gen::m9(1));
         }
     }
     v
